@@ -161,6 +161,44 @@ def off_envelope_limits(ctx, res):
                 case = {"kind": "offenv", "min": mn, "max": mx, "init": init, "call": kind, "volume": repr(v)}
                 res.viol.append(Finding("off-envelope", case, msg, f"C02:off-envelope:{kind}"))
     res.extra["off_envelope_calls"] = n * 6
+    # decimal boundary grid: values that are NOT dyadic, where two float roundings of "the same" comparison can differ
+    def one(kind, v0, r, mn, mx):
+        L = impl.Labware("L", 1, 1, min_volume=mn, max_volume=mx, initial_volumes=v0)
+        exc = None
+        try:
+            getattr(L, kind)("A01", r)
+        except Exception as e:  # noqa: BLE001
+            exc = e
+        x = float(L.volumes[0, 0])
+        res.evaluations += 1
+        res.dist["off-envelope-decimal:" + kind + ":" + ("raise" if exc else "ok")] += 1
+        msg = None
+        if exc is None and kind == "remove" and x < mn and r > 0:
+            msg = f"remove('A01', {r!r}) from {v0!r} (min_volume {mn!r}) returned normally and left {x!r} < min_volume"
+        if exc is None and kind == "add" and x > mx and r > 0:
+            msg = f"add('A01', {r!r}) to {v0!r} (max_volume {mx!r}) returned normally and left {x!r} > max_volume"
+        if exc is not None and x != v0:
+            msg = f"{kind}('A01', {r!r}) raised {type(exc).__name__} but changed the well {v0!r} -> {x!r}"
+        if msg:
+            case = {"kind": "offenv", "min": mn, "max": mx, "init": v0, "call": kind, "volume": repr(r)}
+            res.viol.append(Finding("off-envelope", case, msg, f"C02:off-envelope:{kind}"))
+    for c in (1, 2, 3, 7, 11):
+        for b in range(1, 100, 1 if ctx.tier == "thorough" else 3):
+            for d in (-1, 0, 1):
+                a = b + c + d
+                if a > 0:
+                    one("remove", a / 10, b / 10, c / 10, 1000.0)
+                    one("remove", a / 100, b / 100, c / 100, 1000.0)
+    for mx10 in (3, 7, 11, 33, 1001):
+        for b in range(1, min(mx10, 100), 1 if ctx.tier == "thorough" else 3):
+            for d in (-1, 0, 1):
+                a = mx10 - b + d
+                if a >= 0:
+                    one("add", a / 10, b / 10, 0.0, mx10 / 10)
+    for v0 in (1e16, 1e20, 1e300):
+        for mn in (1.0, 100.0, 0.1):
+            for r in (v0, v0 - mn, v0 / 2, math.nextafter(v0, 0)):
+                one("remove", v0, r, mn, 1e308)
 
 
 def run_C03(ctx):
@@ -1405,7 +1443,10 @@ def run_C20(ctx):
     return res
 
 
-register("C20", run_C20, rule="constructor specifications (plates up to 26x120, troughs up to 26 virtual rows) with scalar / flat / 2-D initial volumes and names; one fault per invalid specification from the statement's classes")
+register("C20", run_C20, module="Robotools.Props.C20",
+         theorems=["Robotools.C20." + t for t in ("table_grid", "mk_ok", "mk_layout_scalar", "mk_layout_flat", "mk_layout_none", "trough_mk_ok",
+                   "mk_error_is_valueErr", "trough_mk_error_is_valueErr", "mk_rejects", "mk_rejects_length",
+                   "initialComposition_rejects_unknown", "default_names_distinct", "default_column_names_distinct")], rule="constructor specifications (plates up to 26x120, troughs up to 26 virtual rows) with scalar / flat / 2-D initial volumes and names; one fault per invalid specification from the statement's classes")
 
 
 # ------------------------------------------------------------------ C09 records
